@@ -339,5 +339,60 @@ theorem takeTextAux_escText_stop (stop : Char) (hstop : stop = '|' ∨ stop = '}
           rw [ih _ ht (fun _ => by simp [hb]) (by simp)]
         · rw [ih _ ht (fun h => absurd h htne) (hlast_t htne)]
 
+/-! ### an integer argument through the whole front end -/
+
+theorem span_loop_digits : ∀ (ds acc : List Char), ds.all isDigitChar = true →
+    List.span.loop isDigitChar (ds ++ [')']) acc = (acc.reverse ++ ds, [')']) := by
+  intro ds
+  induction ds with
+  | nil => intro acc _; simp [List.span.loop, show isDigitChar ')' = false by decide]
+  | cons d t ih =>
+    intro acc hd
+    simp only [List.all_cons, Bool.and_eq_true] at hd
+    simp only [List.cons_append, List.span.loop, hd.1, if_true]
+    rw [ih _ hd.2]
+    simp
+
+/-- **a non-negative integer argument, end to end**: `%T(<decimal digits of n>)` is lexed and parsed back to a tag
+    with exactly the integer `n` as its only argument, for every `n` below CPython's conversion limit -/
+theorem parse_print_nat_arg (n : Nat) (h : (natDigits n).length ≤ intMaxStrDigits) :
+    parseTemplate ("%T(".toList ++ natDigits n ++ [')']) =
+      some (.cons (.tag none "T".toList [.int (n : Int)] [] none) .nil) := by
+  have hd := all_digits_natDigits n
+  obtain ⟨c, r, hcr⟩ : ∃ c r, natDigits n = c :: r := by
+    cases hds : natDigits n with
+    | nil => exact absurd hds (natDigits_ne_nil n)
+    | cons c r => exact ⟨c, r, rfl⟩
+  have hcr' := hcr
+  rw [hcr] at hd
+  simp only [List.all_cons, Bool.and_eq_true] at hd
+  have hc := hd.1
+  have hloop := span_loop_digits r [c] hd.2
+  have hnum : numValue (natDigits n) = some (n : Int) := by
+    have := numValue_print (n : Int) (by simpa using h)
+    have hneg : ¬ ((n : Int) < 0) := by omega
+    simpa [pyIntStr, hneg] using this
+  have ne_of : ∀ x : Char, isDigitChar x = false → c ≠ x := by
+    intro x hx e; subst e; rw [hc] at hx; exact absurd hx (by decide)
+  have n1 := ne_of ' ' (by decide)
+  have n2 := ne_of ')' (by decide)
+  have n3 := ne_of ',' (by decide)
+  have n4 := ne_of '=' (by decide)
+  have n5 := ne_of '\t' (by decide)
+  have n6 := ne_of '\n' (by decide)
+  have n7 := ne_of '\r' (by decide)
+  have hlex : lex ("%T(".toList ++ natDigits n ++ [')']) =
+      some [.tagStart, .tagId "T".toList, .argsStart, .num (natDigits n), .argsEnd] := by
+    unfold lex
+    rw [hcr]
+    have e : "%T(".toList ++ (c :: r) ++ [')'] = '%' :: 'T' :: '(' :: (c :: (r ++ [')'])) := by simp
+    rw [e]
+    simp [lexLoop, lexStep, isGlobalWs, isIdStart, isIdChar, List.span, List.span.loop, n1, n2, n3, n4, n5, n6, n7, hc,
+      hloop]
+  unfold parseTemplate
+  rw [hlex]
+  simp [parseTokens, parsePattern, parseElems, parseTag, parseTagBody, parseArgList, parseArgument, parseValue,
+    parseMoreArgs, splitArgs, Pat.ofList, hnum]
+
 end C10
 end Tempren
